@@ -60,7 +60,7 @@ def generate(check, rng, tier, run_index):
     ops = []
     if check == 'C03':
         W = [('index', 14), ('view', 2), ('join', 7), ('stack', 4), ('atom_slice', 6), ('remove_solvent', 3), ('center', 9),
-             ('superpose', 4), ('set_xyz', 3), ('set_time', 2), ('set_cell', 2), ('rmsd', 14), ('save', 3), ('analysis', 5),
+             ('superpose', 4), ('set_xyz', 3), ('nudge', 3), ('set_time', 2), ('set_cell', 2), ('rmsd', 14), ('save', 3), ('analysis', 5),
              ('scribble', 5), ('top_edit', 2)]
     else:
         W = [('index', 8), ('join', 5), ('stack', 3), ('atom_slice', 4), ('set_vectors', 8), ('set_vectors_rot', 6),
@@ -91,6 +91,8 @@ def generate(check, rng, tier, run_index):
             # be refused (subsets of different length) -- a refused call must leave the object as it was
             o['variant'] = rng.weighted([('all', 5), ('subset', 2), ('ref_subset', 2), ('refused', 2)])
             o['bits'] = rng.below(1 << 40) | 7
+        elif k == 'nudge':
+            o['seed'] = rng.below(1 << 20)
         elif k in ('set_xyz', 'set_time'):
             o['seed'] = rng.below(1 << 30)
         elif k == 'set_cell':
@@ -315,6 +317,7 @@ class Member(object):
 
     def __init__(self, t, xyz, time, L, A, labels):
         self.t = t
+        self.dirty = False           # coordinates were written in place since the last centring: cached traces are the caller's problem
         self.xyz = np.array(xyz, dtype=np.float32)
         self.time = np.array(time)
         self.L = None if L is None else np.array(L, dtype=np.float32)
@@ -610,6 +613,7 @@ def execute(check, case, workdir):
                 idx = np.arange(m.n)[key]
                 idx = np.atleast_1d(idx)
                 mm = Member(r, m.xyz[idx], m.time[idx], None if m.L is None else m.L[idx], None if m.A is None else m.A[idx], m.labels)
+                mm.dirty = m.dirty
                 res.log.append('%d %s m%d[%s] -> %d frames' % (stepno, kind, m.id, kc, mm.n))
                 res.trace.append((kind, kc, cache_state(m), m.complete))
                 bad = compare_member(mm, cell=True)
@@ -627,7 +631,7 @@ def execute(check, case, workdir):
                     add(mm)
                 else:
                     res.probe('view_checked_and_dropped')
-                    if judge03 and cache_state(m) == 'set' and mm.n > 0 and mm.xyz.shape[1] >= 3:
+                    if judge03 and cache_state(m) == 'set' and not m.dirty and mm.n > 0 and mm.xyz.shape[1] >= 3:
                         # the view inherits the cache of its parent: the precentered shortcut on it must agree with from-scratch
                         T0 = md.Trajectory(mm.xyz.copy(), None)
                         ref_v = md.rmsd(T0, T0, 0, parallel=False)
@@ -769,6 +773,7 @@ def execute(check, case, workdir):
                     viol('center', 'result_mismatch:xyz', {'max_abs': float(np.abs(t.xyz - exp).max())}, stepno, flags)
                     continue
                 m.xyz = np.array(t.xyz, dtype=np.float32)
+                m.dirty = False
             elif kind == 'superpose':
                 cands = [x for x in pool if x.xyz.shape[1] == m.xyz.shape[1]]
                 u = pick(op['j'], cands)
@@ -848,8 +853,22 @@ def execute(check, case, workdir):
                 flags = 'cache=%s' % cache_state(m)
                 t.xyz = new.copy()
                 m.xyz = new
+                m.dirty = False
                 res.log.append('%d set_xyz m%d' % (stepno, m.id))
                 res.trace.append(('set_xyz', cache_state(m)))
+            elif kind == 'nudge':
+                # the caller writes into the coordinate array in place (t.xyz[...] += shift): legal, and invisible to the object.
+                # Until the next centring the precentered shortcut is the caller's own risk and is not judged; centring again
+                # must really centre.
+                r = np.random.RandomState(op['seed'])
+                shift = r.normal(scale=0.5, size=(m.n, 1, 3)).astype(np.float32)
+                t.xyz[...] += shift
+                m.xyz = np.array(t.xyz, dtype=np.float32)
+                if cache_state(m) == 'set':
+                    m.dirty = True
+                    res.probe('in_place_write_with_cached_traces')
+                res.log.append('%d nudge m%d' % (stepno, m.id))
+                res.trace.append(('nudge', cache_state(m)))
             elif kind == 'set_time':
                 r = np.random.RandomState(op['seed'])
                 new = np.cumsum(r.uniform(0.1, 2.0, size=m.n)).astype(np.float32)
@@ -915,7 +934,7 @@ def execute(check, case, workdir):
                 cands = [x for x in pool if x.xyz.shape[1] == m.xyz.shape[1]]
                 u = pick(op['j'], cands)
                 f = op['f'] % u.n
-                pre = op['pre']
+                pre = op['pre'] and not (m.dirty or u.dirty)
                 shortcut = pre and cache_state(m) == 'set' and cache_state(u) == 'set'
                 flags = 'precentered=%d,shortcut=%d' % (pre, shortcut)
                 if shortcut:
@@ -1235,7 +1254,7 @@ def execute(check, case, workdir):
     # ---- final sweep: cache coherence on every pool member through the public observable
     if judge03:
         for m in list(pool):
-            if m.n == 0:
+            if m.n == 0 or m.dirty:
                 continue
             T0 = md.Trajectory(m.xyz.copy(), None)
             ref = md.rmsd(T0, T0, 0, parallel=False)
